@@ -192,5 +192,54 @@ func main() {
 			e.Strs("ffCond", loops, "mergedStreamIterator.Next: fast-forward loop (condition ; post)")
 			e.Strs("notFoundCond", nf, "mergedStreamIterator.Next: condition under which an empty document is returned for the current ID")
 		}
-	}, "pkg/storeapi/store_api.pb.go", "proxy/search/ingestor.go", "proxy/search/merged_docs_iterator.go")
+		// ---- proxyapi: store-reported errors fail the request; order of the classification in doSearch
+		if a, err := r.Load("proxyapi/grpc_v1.go"); err != nil {
+			e.Missing("apiStoreErrorsCond", err)
+		} else {
+			if fd := a.Func("", "processSearchErrors"); fd == nil {
+				e.Missing("apiStoreErrorsCond", "processSearchErrors not found")
+			} else {
+				var conds []string
+				for _, st := range fd.Body.List {
+					if x, ok := st.(*ast.IfStmt); ok {
+						for _, s := range x.Body.List {
+							if r, ok := s.(*ast.ReturnStmt); ok && len(r.Results) == 1 && strings.HasPrefix(a.Render(r.Results[0]), "status.Error(codes.Internal") {
+								conds = append(conds, a.Render(x.Cond))
+							}
+						}
+					}
+				}
+				e.Strs("apiStoreErrorsCond", conds, "processSearchErrors: top-level conditions that return codes.Internal")
+			}
+			if fd := a.Func("grpcV1", "doSearch"); fd == nil {
+				e.Missing("doSearchOrder", "doSearch not found")
+			} else {
+				type ev struct {
+					pos token.Pos
+					s   string
+				}
+				var evs []ev
+				ast.Inspect(fd.Body, func(n ast.Node) bool {
+					switch x := n.(type) {
+					case *ast.CallExpr:
+						f := a.Render(x.Fun)
+						if f == "parseProxyError" || f == "processSearchErrors" || strings.HasSuffix(f, "searchIngestor.Search") {
+							evs = append(evs, ev{x.Pos(), f})
+						}
+					case *ast.IfStmt:
+						if c := a.Render(x.Cond); c == "errors.Is(err, consts.ErrPartialResponse)" {
+							evs = append(evs, ev{x.Pos(), c})
+						}
+					}
+					return true
+				})
+				sort.Slice(evs, func(i, j int) bool { return evs[i].pos < evs[j].pos })
+				var ss []string
+				for _, v := range evs {
+					ss = append(ss, v.s)
+				}
+				e.Strs("doSearchOrder", ss, "doSearch: the search call and the error classification steps, source order")
+			}
+		}
+	}, "proxyapi/grpc_v1.go", "pkg/storeapi/store_api.pb.go", "proxy/search/ingestor.go", "proxy/search/merged_docs_iterator.go")
 }
